@@ -27,6 +27,32 @@ CLAIM = dict(
 DEF = Z + "deflate::deflate"
 
 
+def duplicate_flush(ck, P):
+    """duplicate-flush suppression of deflate(): BufError under avail_in == 0 && rank(flush) <= rank(old) && flush != Finish, with
+    zlib's ranking (Z_BLOCK between NoFlush and PartialFlush)"""
+    fn = P.fn(Z + "deflate::deflate")
+    if not ck.anchor("fn deflate::deflate", fn):
+        return
+    ck.use_fn(fn)
+    rk = P.fn(Z + "deflate::rank_flush")
+    if ck.anchor("fn rank_flush", rk):
+        cs = shape.fn_int_consts(rk)
+        ck.decide({2, 9, 4} <= cs, "ATOM/rank-flush", "constants", "f*2 - (f > 4 ? 9 : 0)", "rank_flush constants changed: %s" % sorted(cs), where(rk))
+    sites = []
+    for bi, si, lhs, rv, s in fn.assignments():
+        if fn.enum_const(fn.rvalue_expr(rv)) == (Z + "ReturnCode", "BufError"):
+            sites.append(bi)
+    okd = False
+    for b in sites:
+        es, ds = sig.site_guards(fn, b)
+        ss = es + ds
+        if any("rank_flush" in " ".join(s.calls) for s in ss) and any(s.rel == "Eq" and "avail_in" in s.names and 0 in s.consts for s in ss) \
+                and any(s.rel == "Ne" and "Finish" in s.names for s in ss):
+            okd = True
+    ck.decide(okd, "ATOM/duplicate-flush", "deflate", "BufError under avail_in == 0 && rank(flush) <= rank(old) && flush != Finish",
+              "the duplicate-flush BufError rule of deflate() lost one of its three conditions", where(fn))
+
+
 def flush_arms(ck, P):
     R = "CUT/flush-arm"
     fn = P.fn(DEF)
@@ -104,24 +130,7 @@ def flush_arms(ck, P):
         cp = fp.live_calls(r"copy_nonoverlapping$")
         ck.decide(bool(fb) and bool(cp) and fp.dominates(fb[0].bb, cp[0].bb), R, "flush_pending:flush_bits-first", "flush_bits before the copy",
                   "flush_pending does not flush whole bytes of the bit buffer before copying", where(fp))
-    # duplicate flush suppression
-    rk = P.fn(Z + "deflate::rank_flush")
-    if ck.anchor("fn rank_flush", rk):
-        cs = shape.fn_int_consts(rk)
-        ck.decide({2, 9, 4} <= cs, "ATOM/rank-flush", "constants", "f*2 - (f > 4 ? 9 : 0)", "rank_flush constants changed: %s" % sorted(cs), where(rk))
-    sites = []
-    for bi, si, lhs, rv, s in fn.assignments():
-        if fn.enum_const(fn.rvalue_expr(rv)) == (Z + "ReturnCode", "BufError"):
-            sites.append(bi)
-    okd = False
-    for b in sites:
-        es, ds = sig.site_guards(fn, b)
-        ss = es + ds
-        if any("rank_flush" in " ".join(s.calls) for s in ss) and any(s.rel == "Eq" and "avail_in" in s.names and 0 in s.consts for s in ss) \
-                and any(s.rel == "Ne" and "Finish" in s.names for s in ss):
-            okd = True
-    ck.decide(okd, "ATOM/duplicate-flush", "deflate", "BufError under avail_in == 0 && rank(flush) <= rank(old) && flush != Finish",
-              "the duplicate-flush BufError rule of deflate() lost one of its three conditions", where(fn))
+    duplicate_flush(ck, P)
 
 
 def compress_functions(P):
